@@ -479,7 +479,11 @@ int yr_re_ast_split_at_chaining_point(
 
   while (child != NULL)
   {
-    if (!child->greedy && child->type == RE_NODE_RANGE_ANY &&
+    // The gap between two chained strings is a number of arbitrary bytes, so
+    // only a .{n,m} that matches any byte (hex strings, regexps with /s) can
+    // be replaced by a gap.
+    if ((re_ast->flags & RE_FLAGS_DOT_ALL) && !child->greedy &&
+        child->type == RE_NODE_RANGE_ANY &&
         child->prev_sibling != NULL && child->next_sibling != NULL &&
         (child->start > YR_STRING_CHAINING_THRESHOLD ||
          child->end > YR_STRING_CHAINING_THRESHOLD))
